@@ -46,7 +46,7 @@ def showTxn (mr mp : Manifest) : Txn → String
       ++ showIds (dedup (removed ++ gone mp aff))
   | .update aff removed patches news fm _ cm =>
     "update:r=" ++ showIds (dedup (removed ++ gone mp aff)) ++ ":u=" ++ showIds ((aff.map (·.1)).filter (fun f => !removed.contains f) ++ patches.map (·.1))
-      ++ ":n=" ++ toString news.length ++ ":fm=" ++ showIds fm ++ ":m=" ++ (if cm then "cols" else "rows")
+      ++ ":n=" ++ toString news.length ++ ":fm=" ++ showIds fm ++ ":m=" ++ (if cm.isNone then "cols" else "rows")
   | .createIndex new removed =>
     "createindex:new=" ++ joinOr "+" (sortStr (new.map showIndex)) ++ ":rm="
       ++ joinOr "+" (sortStr ((mr.indices.filter fun i => removed.contains i.uuid).map fun i => idxName i.name))
@@ -168,21 +168,25 @@ def doReq (st : St) (s : Store) (h : Nat) (q : Req) : St × String :=
               showState s'.hist.length (showTxn vr.m prev.m (reqTxn vr.m s.nextUuid q)) top.m)
           | _, _ => (st, "err no_table")
 
+def doCreate (st : St) (f sr rows : String) : St × String :=
+  match (f.dropPrefix? "f=").bind (fun x => parseNat9 x.toString), rowsW rows [3],
+      (if sr = "s=0" then some false else if sr = "s=1" then some true else none) with
+  | some f, some rs, some stable =>
+    if f = 0 then (st, "err parse")
+    else if st.store.isSome then (st, "err no_table")
+    else if !freshKeys [] rs then (st, "err keys")
+    else
+      let s := initStoreS stable (chunkRows f rs.length rs)
+      match s.hist.head? with
+      | some top =>
+        (⟨some s, [1, 1, 1], rs.filterMap keyOf⟩, showState 1 "create" top.m)
+      | none => (st, "err parse")
+  | _, _, _ => (st, "err parse")
+
 def step (st : St) (line : String) : St × String :=
   match splitTokens line with
-  | ["create", f, rows] =>
-    match (f.dropPrefix? "f=").bind (fun x => parseNat9 x.toString), rowsW rows [3] with
-    | some f, some rs =>
-      if f = 0 then (st, "err parse")
-      else if st.store.isSome then (st, "err no_table")
-      else if !freshKeys [] rs then (st, "err keys")
-      else
-        let s := initStore (chunkRows f rs.length rs)
-        match s.hist.head? with
-        | some top =>
-          (⟨some s, [1, 1, 1], rs.filterMap keyOf⟩, showState 1 "create" top.m)
-        | none => (st, "err parse")
-    | _, _ => (st, "err parse")
+  | ["create", f, rows] => doCreate st f "s=0" rows
+  | ["create", f, sr, rows] => doCreate st f sr rows
   | ["open", h] =>
     match parseNat9 h with
     | some h =>
